@@ -24,6 +24,8 @@ import (
 	"os"
 	"path/filepath"
 	"strconv"
+
+	"golang.org/x/crypto/bcrypt"
 	"strings"
 	"sync"
 	"sync/atomic"
@@ -31,7 +33,8 @@ import (
 	"time"
 )
 
-const c20N = 24
+const c20N = 42       // versions 2..24: one at a time (wait until visible); 25..42: bursts of three rapid replacements (big, small, small)
+const c20Regular = 24
 
 func c20Bad(k int) bool { return k%3 == 0 }
 func c20Eff(k int) int {
@@ -61,7 +64,39 @@ func c20Htpasswd(k int) string {
 	for j := k + 1; j <= c20N; j++ {
 		s += fmt.Sprintf("shrink-%d:%s\n", j, vfHtpasswdSHA("s"))
 	}
-	return s + fmt.Sprintf("vuser:%s\n", vfHtpasswdSHA("pw-"+strconv.Itoa(k)))
+	s += c20Pad(k, "pad-%d:"+vfHtpasswdSHA("p")+"\n")
+	// vuser's password changes with every version and is a BCRYPT entry (slow verification outside the lock: a validation
+	// with the old password that is in flight during the swap must not make the old password valid afterwards)
+	return s + fmt.Sprintf("vuser:%s\n", c20Bcrypt(k))
+}
+
+var (
+	c20BcryptOnce sync.Once
+	c20BcryptTab  []string
+)
+
+func c20Bcrypt(k int) string {
+	c20BcryptOnce.Do(func() {
+		c20BcryptTab = make([]string, c20N+1)
+		for i := range c20BcryptTab {
+			h, _ := bcrypt.GenerateFromPassword([]byte("pw-"+strconv.Itoa(i)), bcrypt.MinCost)
+			c20BcryptTab[i] = string(h)
+		}
+	})
+	return c20BcryptTab[k]
+}
+
+// c20Pad: the first version of every burst is BIG (slow to parse), so that a reload of it which is not serialised
+// with the following ones finishes last and would publish a stale version.
+func c20Pad(k int, format string) string {
+	if k <= c20Regular || (k-c20Regular)%3 != 2 {
+		return ""
+	}
+	var b strings.Builder
+	for i := 0; i < 40000; i++ {
+		fmt.Fprintf(&b, format, i)
+	}
+	return b.String()
 }
 
 // e-mail file: only a csv parse error is a failed parse; written with case / space variants
@@ -78,6 +113,7 @@ func c20Emails(k int) string {
 	for j := k + 1; j <= c20N; j++ {
 		s += fmt.Sprintf("shrink-%d@example.com\n", j)
 	}
+	s += c20Pad(k, "pad-%d@example.com\n")
 	return s + fmt.Sprintf("vuser-%d@example.com\n", k)
 }
 
@@ -293,15 +329,13 @@ func c20Round(run *vfRun, w *vfWorld, r, nVal int) {
 					mu.Lock()
 					obs = append(obs, c20Obs{Call: call, Ret: ret, Probe: pr, Ans: ans, Via: via, WrittenAtRet: writtenAtRet, SeenAtCall: seenAtCall})
 					mu.Unlock()
-					if n%32 == 0 {
-						time.Sleep(100 * time.Microsecond)
-					}
+					time.Sleep(150 * time.Microsecond) // bounds the history size; the interesting windows are milliseconds wide
 				}
 			}(vI)
 		}
 		// writer: replace, then wait (bounded) until the version is visible
 		invisibleRun, maxInvisibleRun := 0, 0
-		for k := 2; k <= c20N; k++ {
+		for k := 2; k <= c20Regular; k++ {
 			atomic.StoreInt32(&written, int32(k)) // upper bound first: from now on version k may be on disk and installed
 			if err := c20WriteFile(tg.path, tg.content(k), k); err != nil {
 				run.T.Fatalf("write: %v", err)
@@ -330,14 +364,107 @@ func c20Round(run *vfRun, w *vfWorld, r, nVal int) {
 				run.Count(tg.name+"_versions_not_visible_within_bound", 1)
 			}
 		}
+		// bursts: three replacements in rapid succession (big, small, small) without waiting in between; after the burst
+		// the LAST version must come into force: a stale version that stays in force means an older reload finished
+		// (published) after a newer one
+		stuck := 0
+		for k := c20Regular + 2; k+2 <= c20N; k += 3 { // (26,27,28), (29,30,31), ...: big, malformed, small — the last one is well-formed
+			last := k + 2
+			atomic.StoreInt32(&written, int32(k+2))
+			for j := k; j <= k+2; j++ {
+				if err := c20WriteFile(tg.path, tg.content(j), j); err != nil {
+					run.T.Fatalf("write: %v", err)
+				}
+				run.Count(tg.name+"_burst_replacements", 1)
+				time.Sleep(8 * time.Millisecond) // long enough for the watcher to START reloading this version, far shorter than parsing the big one
+			}
+			visible := false
+			for tries := 0; tries < 600; tries++ { // up to ~3 s of quiescence
+				if ans, ok := tg.ask(c20Probe{"vuser", last}, false); ok && ans {
+					visible = true
+					break
+				}
+				time.Sleep(5 * time.Millisecond)
+			}
+			if visible {
+				// settle window: nothing is replaced now; the last version, once in force, must stay in force
+				// (a reload of an OLDER version that completes late must not overwrite it)
+				time.Sleep(400 * time.Millisecond)
+				if ans, ok := tg.ask(c20Probe{"vuser", last}, false); ok && !ans {
+					run.Violation("c20:newer-version-replaced-by-stale-one", fmt.Sprintf("%s: version %d was in force after the burst, and 400 ms later (no replacement in between) it no longer is: an older reload completed after the newer one", tg.name, last),
+						map[string]interface{}{"flags": p.Flags, "file": tg.name, "burst": []int{k, k + 1, k + 2}})
+				} else {
+					run.Count(tg.name+"_bursts_settled_on_last_version", 1)
+				}
+				continue
+			}
+			inForce := -1
+			for j := k + 2; j >= 1; j-- {
+				if c20Bad(j) {
+					continue
+				}
+				if ans, ok := tg.ask(c20Probe{"vuser", j}, false); ok && ans {
+					inForce = j
+					break
+				}
+			}
+			stuck++
+			run.Count(tg.name+"_bursts_stuck_on_stale_version", 1)
+			if stuck >= 2 {
+				run.Violation("c20:stale-version-in-force-after-burst", fmt.Sprintf("%s: after a burst of replacements ending with version %d, version %d is still in force after ~3 s of quiescence (an older reload completed after a newer one)", tg.name, last, inForce),
+					map[string]interface{}{"flags": p.Flags, "file": tg.name, "burst": []int{k, k + 1, k + 2}, "in_force": inForce})
+			}
+		}
+		if stuck == 1 {
+			run.Inconclusive("one burst did not settle on its last version within the bound")
+		}
 		atomic.StoreInt32(&stop, 1)
 		wg.Wait()
+		// in-place rewrites (an operator editing the file, `echo ... > file`): the file can be read half-written, so
+		// atomicity is not judged here — only the final state: once the last rewrite is complete and things are quiet,
+		// its contents must be in force and stay in force (reloads must not complete out of order)
+		lost := 0
+		for k := c20Regular + 2; k+2 <= c20N && k < c20Regular+12; k += 3 {
+			last := k + 2
+			_ = os.WriteFile(tg.path, []byte(tg.content(k)), 0o600) // big
+			time.Sleep(8 * time.Millisecond)
+			_ = os.WriteFile(tg.path, []byte(tg.content(last)), 0o600) // small, final
+			run.Count(tg.name+"_inplace_rewrite_pairs", 1)
+			okFinal := false
+			for tries := 0; tries < 600; tries++ {
+				if ans, ok := tg.ask(c20Probe{"vuser", last}, false); ok && ans {
+					okFinal = true
+					break
+				}
+				time.Sleep(5 * time.Millisecond)
+			}
+			if okFinal {
+				time.Sleep(400 * time.Millisecond)
+				if ans, ok := tg.ask(c20Probe{"vuser", last}, false); ok && !ans {
+					okFinal = false
+				}
+			}
+			if okFinal {
+				run.Count(tg.name+"_inplace_final_version_in_force", 1)
+				run.Eval(fmt.Sprintf("%s|in-place rewrite|final state", tg.name))
+				continue
+			}
+			lost++
+			if lost >= 2 {
+				run.Violation("c20:final-contents-not-in-force", fmt.Sprintf("%s: after two in-place rewrites (big version %d, then version %d) and quiescence, the final contents are not in force (reloads completed out of order or the last one was lost)", tg.name, k, last),
+					map[string]interface{}{"flags": p.Flags, "file": tg.name, "versions": []int{k, last}})
+			}
+		}
+		if lost == 1 {
+			run.Inconclusive("one in-place rewrite pair did not end with the final contents in force")
+		}
 		if maxInvisibleRun >= 3 {
 			run.Violation("c20:reload-never-visible", fmt.Sprintf("%s: %d consecutive well-formed replacements never became visible within the bound (reload lost)", tg.name, maxInvisibleRun), map[string]interface{}{"flags": p.Flags, "file": tg.name})
 		} else if maxInvisibleRun > 0 {
 			run.Inconclusive("a replaced version did not become visible within the bound")
 		}
 		// judge the history
+		cellCount := map[string]int64{}
 		for i := range obs {
 			o := &obs[i]
 			lo := c20Eff(o.SeenAtCall)
@@ -350,7 +477,7 @@ func c20Round(run *vfRun, w *vfWorld, r, nVal int) {
 			if o.SeenAtCall != c20Eff(o.WrittenAtRet) {
 				overl = "during-replacement"
 			}
-			run.Eval(fmt.Sprintf("%s|validators=%d|%s|ans=%v|%s|%s", tg.name, nVal, o.Probe.Kind, o.Ans, o.Via, overl))
+			cellCount[tg.name+"|validators="+strconv.Itoa(nVal)+"|"+o.Probe.Kind+"|ans="+strconv.FormatBool(o.Ans)+"|"+o.Via+"|"+overl]++
 			if !ok {
 				sig := "c20:answer-explained-by-no-live-version"
 				if o.Probe.Kind == "always" || o.Probe.Kind == "never" {
@@ -359,6 +486,9 @@ func c20Round(run *vfRun, w *vfWorld, r, nVal int) {
 				run.Violation(sig, fmt.Sprintf("%s: probe %s(%d) answered %v via %s, but every well-formed version in [%d..%d] (observed-before-call .. replaced-before-return) says otherwise", tg.name, o.Probe.Kind, o.Probe.K, o.Ans, o.Via, lo, hi),
 					map[string]interface{}{"flags": p.Flags, "observation": o, "file_versions": "see c20Htpasswd/c20Emails(k)"})
 			}
+		}
+		for c, n := range cellCount {
+			run.EvalN(c, n)
 		}
 		run.Count(tg.name+"_validations", int64(len(obs)))
 		if len(obs) > 0 {
